@@ -49,7 +49,7 @@ VCS_SUBCOMMANDS_BY_NAME = {
         'fetch'         : "git fetch",
         'ls_tags'       : "git tag --list",
         'ls_tags_branch': "git tag --list --merged",
-        'status'        : "git status --porcelain",
+        'status'        : "git status --porcelain -z",
         'add_path'      : "git add --update '{path}'",
         'commit'        : "git commit --message '{message}'",
         'tag'           : "git tag --annotate {tag} --message '{message}'",
@@ -150,14 +150,22 @@ class VCSAPI:
         """Get status lines."""
         status_output = self('status')
         status_items: typ.List[typ.Tuple[str, str]] = []
-        for line in status_output.splitlines():
-            if self.name == 'git':
-                # porcelain format: two status columns (either may be a space),
-                # one space, then the path (or "old -> new" for a rename)
-                status = line[:2].strip()
-                for filepath in line[3:].split(" -> "):
-                    status_items.append((status, filepath))
-            else:
+        if self.name == 'git':
+            # porcelain -z format: NUL separated entries of two status columns (either may
+            # be a space), one space, then the verbatim path (without -z git would quote
+            # paths that contain blanks or non-ascii characters). For a rename or copy the
+            # original path follows as an entry of its own.
+            entries = status_output.split("\0")
+            while entries:
+                entry = entries.pop(0)
+                if len(entry) < 4:
+                    continue
+                status = entry[:2].strip()
+                status_items.append((status, entry[3:]))
+                if entry[0] in "RC" and entries:
+                    status_items.append((status, entries.pop(0)))
+        else:
+            for line in status_output.splitlines():
                 status, filepath = line.split(" ", 1)
                 status_items.append((status, filepath))
 
